@@ -2,6 +2,7 @@
 the socket primitive may choose (no bound): get_sub_iovs_offset, Endpoint::send_iovec_all, Endpoint::recv_into_iovec_all.
 The socket primitive (send_iovec / recv_into_iovec = one sendmsg / recvmsg) is the assumed boundary (A-OS); termination
 (a peer that makes the socket return `retry` forever) is liveness and is NOT decided (exec_allows_no_decreases_clause)."""
+import re
 from vx import Unit, Source, ExtractError
 
 CONN = "vhost/src/vhost_user/connection.rs"
@@ -19,9 +20,10 @@ SUB_CONTRACT = """
 R19 = [
     ("R19", r'iovs\.iter\(\)\.map\(\|iov\| iov\.len\(\)\)\.collect\(\)', 'iov_lens_of(iovs)'),
     ("R19", r'iovs\.iter\(\)\.map\(\|iov\| iov\.iov_len\)\.collect\(\)', 'iovec_lens_of(iovs)'),
-    ("R19", r'data_total \+= len;', 'data_total += *len;'),
+    ("R19", r'(\w+) \+= len;', r'\1 += *len;'),
     ("R19", r'&iovs\[(\w+)\]\[(\w+)\.\.\]', r'slice_from(iovs[\1], \2)'),
     ("R19", r'&\[&\[(\w+)\], &iovs\[([^\]]+?)\.\.\]\]\.concat\(\)', r'&concat_tail(\1, iovs, \2)'),
+    ("R19", r'\[&\[(\w+)\], &iovs\[([^\]]+?)\.\.\]\]\.concat\(\)', r'concat_tail(\1, iovs, \2)'),
     ("R19", r'\[\s*&\[(iovec \{[^}]*\})\],\s*&iovs\[([^\]]+?)\.\.\],?\s*\]\s*\.concat\(\)', r'concat_tail_iovec(\1, iovs, \2)'),
     ("R20", r'as \*mut c_void', 'as usize'),
 ]
@@ -50,8 +52,13 @@ def build():
     span = conn.impl_span(r'^impl<H: MsgHeader> Endpoint<H>')
     u.raw("impl Endpoint {")
     # ------------------------------------------------------------------ sender
-    u.extracted_fn(conn, "send_iovec_all", within=span, body_rw=R19,
-                   loops=[SUM_LOOP, dict(kind="while", nth=0, text="""            invariant
+    # the total length is either accumulated in a `for` loop or computed with `iov_lens.iter().sum()` (both forms are handled)
+    def sum_form(fn):
+        return re.search(r'\.iter\(\)\s*\.sum\b', u.rw.strip_comments(conn.fn_body(fn, within=span))) is not None
+    SUMRW = [("R19", r'(let (?:mut )?\w+)(?::\s*usize)?\s*=\s*iov_lens\s*\.iter\(\)\s*\.sum(?:::<usize>)?\(\);', r'\1: usize = sum_of_lens(&iov_lens);')]
+    s_sum = sum_form("send_iovec_all")
+    u.extracted_fn(conn, "send_iovec_all", within=span, body_rw=R19 + SUMRW,
+                   loops=([] if s_sum else [SUM_LOOP]) + [dict(kind="while", nth=0, text="""            invariant
                 iov_lens@ == lens(views(iovs@)), iovs@.len() == iov_lens@.len(), iovs@.len() <= usize::MAX,
                 forall|i: int| 0 <= i < iovs@.len() ==> (#[trigger] views(iovs@)[i]).len() <= usize::MAX,
                 data_total == sum_lens(iov_lens@, iov_lens@.len() as int), data_total == flat(views(iovs@)).len(),
@@ -61,12 +68,12 @@ def build():
                 self.calls@.subrange(0, old(self).calls@.len() as int) =~= old(self).calls@,
                 fds_first_byte_only(old(self).calls@.len() as int, self.calls@, old(self).wire@.len() as int, ofds(fds)),
             decreases data_total - data_sent, self.retry_budget@,   // [C08:terminates] every iteration transfers at least one byte, returns, or uses up one `retry` answer""")],
-                   hints=SUM_HINTS + [
-                       (r'while \(data_total - data_sent\) > 0', """let v = views(iovs@);
+                   hints=([] if s_sum else SUM_HINTS) + [
+                       (r'while \(data_total - data_sent\) > 0', """assert(iov_lens.len() <= usize::MAX); let v = views(iovs@);
             assert forall|i: int| 0 <= i < v.len() implies (#[trigger] v[i]).len() <= usize::MAX by { assert(iovs@[i]@.len() <= usize::MAX); assert(v[i] == iovs@[i]@); }
             lemma_flat_len(v, v.len() as int); assert(v.subrange(0, v.len() as int) =~= v);"""),
-                       (r'let iov = slice_from', "lemma_sum_mono(iov_lens@, nr_skip as int, iov_lens@.len() as int);"),
-                       (r'let sent = self\.send_iovec', """lemma_tail(views(iovs@), nr_skip as int, offset as int, data_sent as int);
+                       (r'let \w+ = slice_from', "lemma_sum_mono(iov_lens@, nr_skip as int, iov_lens@.len() as int);"),
+                       (r'(?:let \w+ = |match )self\.send_iovec\(', """lemma_tail(views(iovs@), nr_skip as int, offset as int, data_sent as int);
                 assert(views(iovs@).subrange(nr_skip + 1, iovs@.len() as int) =~= views(iovs@).subrange(nr_skip + 1, views(iovs@).len() as int));"""),
                    ],
                    contract="""
@@ -82,9 +89,10 @@ def build():
             final(self).calls@.subrange(0, old(self).calls@.len() as int) =~= old(self).calls@,
             fds_first_byte_only(old(self).calls@.len() as int, final(self).calls@, old(self).wire@.len() as int, ofds(fds)), // [C08:fds-first-byte,C01] every sendmsg that starts at the message's first byte carries the caller's descriptors, every later one carries none""")
     # ------------------------------------------------------------------ receiver
-    u.extracted_fn(conn, "recv_into_iovec_all", within=span, body_rw=R19,
+    r_sum = sum_form("recv_into_iovec_all")
+    u.extracted_fn(conn, "recv_into_iovec_all", within=span, body_rw=R19 + SUMRW,
                    sig_rw=[("R20", r'\bunsafe\s+fn\b', 'fn')],
-                   loops=[SUM_LOOP, dict(kind="while", nth=0, text="""            invariant
+                   loops=([] if r_sum else [SUM_LOOP]) + [dict(kind="while", nth=0, text="""            invariant
                 iovs@ == old(iovs)@, v == aviews(iovs@), iov_lens@ == lens(v), iovs@.len() == iov_lens@.len(), iovs@.len() <= usize::MAX,
                 forall|i: int| 0 <= i < iovs@.len() ==> iov_ok(#[trigger] iovs@[i]),
                 forall|i: int| 0 <= i < v.len() ==> (#[trigger] v[i]).len() <= usize::MAX,
@@ -95,13 +103,13 @@ def build():
                 data_read == 0 ==> self.rcalls@ == old(self).rcalls@ && rfds is None,
                 data_read > 0 ==> first_chunk_files(old(self).rcalls@, self.rcalls@, old(self).pos@, data_read as int, fids(rfds)),
             decreases data_total - data_read, self.retry_budget@,   // [C08:terminates]""")],
-                   hints=SUM_HINTS + [
+                   hints=([] if r_sum else SUM_HINTS) + [
                        (r'while \(data_total - data_read\) > 0', "let ghost v = aviews(iovs@);", "ghost"),
-                       (r'while \(data_total - data_read\) > 0', """lemma_flat_len(v, v.len() as int); assert(v.subrange(0, v.len() as int) =~= v);
+                       (r'while \(data_total - data_read\) > 0', """assert(iov_lens.len() <= usize::MAX); lemma_flat_len(v, v.len() as int); assert(v.subrange(0, v.len() as int) =~= v);
             assert(deliver(flat(v).subrange(0, 0), self.pos@) =~= Seq::empty());
             assert(self.stored@ =~= self.stored@ + deliver(flat(v).subrange(0, 0), self.pos@));"""),
                        (r'let iov = &mut iovs\[nr_skip\]', "lemma_sum_mono(iov_lens@, nr_skip as int, iov_lens@.len() as int);"),
-                       (r'let res = self\.recv_into_iovec', """let k = nr_skip as int; let off = offset as int;
+                       (r'(?:let \w+ = |match )self\.recv_into_iovec\(', """let k = nr_skip as int; let off = offset as int;
                 lemma_tail(v, k, off, data_read as int);
                 assert(v[k] == addrs(iovs@[k]));
                 assert(addrs(data@[0]) =~= v[k].subrange(off, v[k].len() as int));
